@@ -255,7 +255,14 @@ func c33One(c *vcore.Ctx, env *world.PluginEnv, kc *c33Case) {
 		resp, err := env.Plugin.CalculateRealloc(bg, node, kc.Origin, delta)
 		c.Eval()
 		if err != nil {
-			c.Outcome("realloc-refused")
+			if kc.Probe {
+				c.Outcome("probe/fractional-neighbour/refused")
+			} else {
+				c.Outcome("realloc-refused")
+				if c.WantSample() {
+					c.Sample(map[string]any{"case": kc, "realloc_refused": err.Error()})
+				}
+			}
 			continue
 		}
 		got, err := parseWR(resp.WorkloadResource)
